@@ -1,6 +1,8 @@
 import FrappyProofs.Lemmas.Describe
 import FrappyProofs.Lemmas.ModuleProps
 import FrappyProofs.Props.C04
+import FrappyProofs.Props.C03
+import FrappyModel.Node.DescribeDT
 import FrappyModel.Generated.C06
 /-
 C06 — property theorems (nothing but property theorems and their non-vacuity examples).
@@ -1216,15 +1218,38 @@ theorem writable_reply_ne_readOnly (pre : Predef) (env : Env V) (n : Node J V) (
   | error e => intro hx; simp only [refuse] at hx; injection hx with hx; exact hadm e hres hx
   | ok vw => exact hfin vw.1 vw.2
 
+/-- a payload the parameter's own datatype refuses: the change is refused, nothing is written -/
+theorem change_refused_of_datatype (pre : Predef) (env : Env V) (n : Node J V) (m a : String) (mod : Module J V)
+    (p : Param J V) (hl : lookupParam pre n m a = .ok (mod, p)) (j : J)
+    (hrej : ¬ ∃ v, p.dt.accept j (some p.entry.value) = .ok v) :
+    Reply.isError (handleChange pre env n (.full m a) j).reply = true ∧ (handleChange pre env n (.full m a) j).calls = [] := by
+  have hadm : ∃ e, admitChange env mod p j = .error e := by
+    unfold admitChange
+    split
+    · exact ⟨_, rfl⟩
+    · split
+      · exact ⟨_, rfl⟩
+      · cases ha : p.dt.accept j (some p.entry.value) with
+        | error e => exact ⟨e, rfl⟩
+        | ok v => exact absurd ⟨v, ha⟩ hrej
+  obtain ⟨e, he⟩ := hadm
+  unfold handleChange
+  simp only [target]; rw [hl]; simp only; rw [he]
+  simp [refuse, Reply.isError]
+
 /-- **model_change_probe_ok** (the monitor clause for `change` is sound on the model).  The exchange the model produces
 for ANY `change m:a` — described parameter (read-only, constant or writable), described command or undescribed name —
-satisfies `ProbeOK` against the model's own report, `allowed` being the verdict of the specification's decision list. -/
+satisfies `ProbeOK` against the model's own report, `allowed` being the verdict of the specification's decision list and
+`client` the verdict of a client datatype that refuses only what the parameter's own datatype refuses (the datatype-oracle
+law `AcceptLaw`, here needed in one direction and for this payload only). -/
 theorem model_change_probe_ok [DecidableEq J] (pre : Predef) (env : Env V) (n : Node J V) (hwf : Node.WF pre n)
-    (hno : NoForeignReadOnly env n) (m a : String) (j : J) (allowed : Bool)
-    (hallowed : allowed = true → ∃ m' a' hw v w, changeVerdict pre env n (.full m a) j = .allow m' a' hw v w) :
+    (hno : NoForeignReadOnly env n) (m a : String) (j : J) (allowed client : Bool)
+    (hallowed : allowed = true → ∃ m' a' hw v w, changeVerdict pre env n (.full m a) j = .allow m' a' hw v w)
+    (hclient : client = false → ∀ mod p, lookupParam pre n m a = .ok (mod, p) →
+      ¬ ∃ v, p.dt.accept j (some p.entry.value) = .ok v) :
     ProbeOK (describe pre n)
       ⟨.change, m, a, (handleChange pre env n (.full m a) j).reply, (handleChange pre env n (.full m a) j).calls, false,
-       allowed, false, false⟩ := by
+       allowed, false, client⟩ := by
   unfold ProbeOK
   simp only
   cases hd : findDesc (describe pre n) m a with
@@ -1244,7 +1269,8 @@ theorem model_change_probe_ok [DecidableEq J] (pre : Predef) (env : Env V) (n : 
       exact ⟨rfl, rfl⟩
     · intro hro
       obtain ⟨mod, p, hl, hr, hc, _⟩ := flags_predict_writable pre env n hwf m a ad hd hro j
-      refine ⟨writable_reply_ne_readOnly pre env n hno m a mod p hl hr hc j, ?_⟩
+      refine ⟨writable_reply_ne_readOnly pre env n hno m a mod p hl hr hc j, ?_,
+        fun hcl => change_refused_of_datatype pre env n m a mod p hl j (hclient hcl mod p hl)⟩
       intro hal
       obtain ⟨m', a', hw, v, w, hv⟩ := hallowed hal
       have hver := handleChange_verdict pre env n hwf (.full m a) j
@@ -1320,13 +1346,14 @@ open Frappy.Props.C04.Example in
 (it reaches the driver), a change of the constant `_k` (ReadOnly), a read of `_k` (the constant) -/
 example :
     ProbeOK (describe pre node) ⟨.change, "m", "target", (handleChange pre env node (.full "m" "target") 20).reply,
-      (handleChange pre env node (.full "m" "target") 20).calls, false, true, false, false⟩ ∧
+      (handleChange pre env node (.full "m" "target") 20).calls, false, true, false, true⟩ ∧
     ProbeOK (describe pre node) ⟨.change, "m", "_k", (handleChange pre env node (.full "m" "_k") 20).reply,
-      (handleChange pre env node (.full "m" "_k") 20).calls, false, false, false, false⟩ ∧
+      (handleChange pre env node (.full "m" "_k") 20).calls, false, false, false, true⟩ ∧
     ProbeOK (describe pre node) ⟨.read, "m", "_k", (handleRead pre env node (.full "m" "_k") false).reply,
       (handleRead pre env node (.full "m" "_k") false).calls, false, false, false, false⟩ :=
-  ⟨model_change_probe_ok pre env node wf Example.noForeign "m" "target" 20 true (fun _ => ⟨"m", "target", true, 20, 20, rfl⟩),
-   model_change_probe_ok pre env node wf Example.noForeign "m" "_k" 20 false (fun h => by cases h),
+  ⟨model_change_probe_ok pre env node wf Example.noForeign "m" "target" 20 true true (fun _ => ⟨"m", "target", true, 20, 20, rfl⟩)
+     (fun h => by cases h),
+   model_change_probe_ok pre env node wf Example.noForeign "m" "_k" 20 false true (fun h => by cases h) (fun h => by cases h),
    model_read_probe_ok pre env node wf "m" "_k" 0⟩
 
 /-! non-vacuity for the theorems relative to the datatype-oracle laws: a node whose parameter takes numbers up to 100
@@ -1422,7 +1449,7 @@ example : ∃ ad, findDesc (describe pre node3) "m" "_p" = some ad ∧ client ad
 
 open Frappy.Props.C04.Example Example3 in
 /-- `described_datainfo_equiv`: the described datainfo accepts 100 and rejects 101, as the node does -/
-example : ∀ j, ∃ mod p, lookupParam pre node3 "m" "_p" = .ok (mod, p) ∧
+theorem Example3.equiv3 : ∀ j, ∃ mod p, lookupParam pre node3 "m" "_p" = .ok (mod, p) ∧
     (client 100 j = true ↔ ∃ v, p.dt.accept j (some p.entry.value) = .ok v) := by
   intro j
   cases h : findDesc (describe pre node3) "m" "_p" with
@@ -1434,6 +1461,16 @@ example : ∀ j, ∃ mod p, lookupParam pre node3 "m" "_p" = .ok (mod, p) ∧
       rw [h] at this; simpa using this
     have := described_datainfo_equiv pre node3 wf3 client acceptLaw3 "m" "_p" ad h hk.1 j
     rw [hk.2] at this; exact this
+
+open Frappy.Props.C04.Example Example3 in
+/-- `change_refused_of_datatype` (the clause "a payload the described datainfo excludes is refused, nothing is written"):
+200 is beyond the described bound 100 (`client 100 200 = false`) — the change is refused and no driver is called -/
+example : client 100 200 = false ∧
+    Reply.isError (handleChange pre env3 node3 (.full "m" "_p") 200).reply = true ∧
+    (handleChange pre env3 node3 (.full "m" "_p") 200).calls = [] := by
+  obtain ⟨mod, p, hl, hiff⟩ := Example3.equiv3 200
+  exact ⟨by decide +kernel, change_refused_of_datatype pre env3 node3 "m" "_p" mod p hl 200
+    (fun hv => absurd (hiff.2 hv) (by decide +kernel))⟩
 
 /-! non-vacuity for the command theorems: the example node plus a command `go` taking a number up to 5 -/
 namespace Example2
@@ -1686,5 +1723,286 @@ example : (findDesc (describe pre node) "m" "_k").map (fun ad => (ad.readonly, a
 open Frappy.Props.C04.Example in
 /-- `m:k` (the attribute name) is not described, hence unreachable -/
 example : findDesc (describe pre node) "m" "k" = none := by decide +kernel
+
+/-! ### the described datainfo of a parameter whose datatype is DERIVED (class + configuration), not assumed -/
+
+section Derived
+open Frappy Frappy.Datatypes FloatOps Frappy.Lemmas.C03Datainfo
+variable {F : Type} [FloatOps F] [LawfulFloatOps F] [CompatLaws F]
+
+/-- the full statement: for EVERY well-formed datatype tree the client rebuilt from the exported datainfo answers every
+payload as the original does.  It fails for scaled limits that are not on the grid (`derived_datainfo_equiv_fails`,
+recorded finding `C06:datainfo-disagrees:scaled-limit-off-grid`); `derived_datainfo_equiv_partial` proves it for
+all trees whose scaled limits are grid values (`Exportable`). -/
+def derived_datainfo_equiv_statement (F : Type) [FloatOps F] : Prop :=
+  ∀ (D : Consts F), D.OK → ∀ t : DInfo F, t.WF D →
+    ∃ di, exportDatatype D t = .ok di ∧ ∀ j prev, clientAccept D di j prev = acceptWire t.erase j prev
+
+/-- **derived_datainfo_equiv_partial** (the datatype-oracle law `AcceptLaw`, PROVED for the datatype trees of C01–C03).  For
+every well-formed tree whose scaled limits lie on the grid: `export_datatype()` succeeds, and a client that rebuilds
+its datatype from that datainfo does with EVERY payload (and every previous value) exactly what the dispatcher does
+with the original object — same verdict, same error class, same value. -/
+theorem derived_datainfo_equiv_partial (D : Consts F) (hD : D.OK) (t : DInfo F) (hwf : t.WF D) (hex : t.Exportable) :
+    ∃ di, exportDatatype D t = .ok di ∧ ∀ j prev, clientAccept D di j prev = acceptWire t.erase j prev := by
+  obtain ⟨di, t', h1, h2, _, h4, h5⟩ := Frappy.Props.C03.rebuild_equiv D hD t hwf hex
+  refine ⟨di, h1, fun j prev => ?_⟩
+  unfold clientAccept acceptWire
+  rw [h2]; simp only [h5 j]
+  cases importValue t.erase j with
+  | error e => rfl
+  | ok v => exact h4 v prev
+
+/-- **cfg_limit_stored**: a limit given in the configuration of a scaled parameter is stored as given (any finite
+float): nothing moves it to the grid. -/
+theorem cfg_limit_stored (D : Consts F) (hD : D.OK) (k : LimitKey) (x s mn mx ar rr : F) (u f : String)
+    (hx : isFinite x = true) (hc : addZero x = x) :
+    setLimit D k (.float x) (.scaled s mn mx ar rr u f) =
+      .ok (match k with
+        | .min => .scaled s x mx ar rr u f
+        | .max => .scaled s mn x ar rr u f) := by
+  cases k <;> simp only [setLimit,
+    propDouble_self D hD hc hx neg_max_finite max_finite (CompatLaws.finite_bounds x hx).1 (CompatLaws.finite_bounds x hx).2]
+
+/-- **configured_scaled_described** (the description of a scaled parameter whose upper limit comes from the
+configuration).  Let the configuration set `max` of a well-formed scaled datatype to a finite `x ≥ min` ON THE GRID
+(`x = k·scale` as floats; `Aligned` is a statement about `round`, it does not say on which side of `k` the float quotient
+`x / scale` lands), the lower limit being on the grid too.  Then the instance datatype is well formed, the integer the
+report states as `max` is a grid index whose grid value IS `x`, and the datatype a client rebuilds from the described
+datainfo treats every payload exactly as the node does. -/
+theorem configured_scaled_described (D : Consts F) (hD : D.OK) (s mn mx ar rr x : F) (u f : String)
+    (hwf : (DInfo.scaled s mn mx ar rr u f).WF D) (hx : isFinite x = true) (hc : addZero x = x)
+    (hle : le mn x = true) (hmn : DInfo.Aligned s mn) (hax : DInfo.Aligned s x) :
+    ∃ t', setLimit D .max (.float x) (.scaled s mn mx ar rr u f) = .ok t' ∧ limitsOrdered t' = true ∧ t'.WF D ∧
+      ∃ kmax fields, exportDatatype D t' = .ok (.obj fields) ∧ PVal.dictGet fields "max" = some (.int kmax) ∧
+        DType.ofGrid s kmax = some x ∧
+        ∀ j prev, clientAccept D (.obj fields) j prev = acceptWire t'.erase j prev := by
+  have hwf' : (DInfo.scaled s mn x ar rr u f).WF D := by
+    simp only [DInfo.WF, DType.WF] at hwf ⊢
+    obtain ⟨⟨a1, a2, a3, _, _, a6, _, a8, a9, a10, a11⟩, b⟩ := hwf
+    exact ⟨⟨a1, a2, a3, hx, hle, a6, hc, a8, a9, a10, a11⟩, b⟩
+  have hex : (DInfo.scaled s mn x ar rr u f).Exportable := ⟨hmn, hax⟩
+  refine ⟨_, cfg_limit_stored D hD .max x s mn mx ar rr u f hx hc, hle, hwf', ?_⟩
+  obtain ⟨_, kmax, fields, e1, _, e3, _, e5⟩ := Frappy.Props.C03.scaled_description_exact D s mn x ar rr u f hmn hax
+  obtain ⟨di, d1, d2⟩ := derived_datainfo_equiv_partial D hD _ hwf' hex
+  rw [e1] at d1; injection d1 with d1; subst d1
+  exact ⟨kmax, fields, e1, e3, e5, d2⟩
+
+/-- **described_datainfo_equiv_derived** (`described_datainfo_equiv` without the oracle assumption).  In a well-formed
+node over the datatype model, let the parameter the dispatcher resolves for a described name carry the operations of
+ONE tree `t` (`dtOpsOf`: the object that is described is the object that validates), well formed with its scaled limits
+on the grid.  Then a client that rebuilds its datatype from the DESCRIBED datainfo of `m:a` answers every payload as the
+node's `change m:a` validation does. -/
+theorem described_datainfo_equiv_derived (pre : Predef) (D : Consts F) (hD : D.OK) (n : Node (JVal F) (PVal F))
+    (hwf : Node.WF pre n) (m a : String) (ad : AccDesc (JVal F)) (h : findDesc (describe pre n) m a = some ad)
+    (hk : ad.kind = .parameter) :
+    ∃ mod p, lookupParam pre n m a = .ok (mod, p) ∧
+      ∀ ev t, p.dt = dtOpsOf D ev t → t.WF D → t.Exportable →
+        ∀ j prev, liftRes (clientAccept D ad.datainfo j prev) = p.dt.accept j prev := by
+  obtain ⟨mod, p, hl, _, hdi, _, _⟩ := described_is_dispatched pre n hwf m a ad h hk
+  refine ⟨mod, p, hl, fun ev t hp htw hte j prev => ?_⟩
+  obtain ⟨di, d1, d2⟩ := derived_datainfo_equiv_partial D hD t htw hte
+  rw [hdi, hp]
+  simp only [dtOpsOf, d1, d2 j prev]
+
+/-- **instance_limit_from_cfg** (class + configuration ↦ the datatype object of the instance).  For a well-formed scaled
+datatype of the class with on-grid limits, `copy()` is the identity (C03 `copy_core`), so the instance datatype is the
+class datatype with the configured limit put in AS GIVEN — on the grid or not (compare C03 `copy_snaps`: a limit of
+the CLASS that is off the grid is moved to it by the copy; this asymmetry is the recorded finding). -/
+theorem instance_limit_from_cfg (D : Consts F) (hD : D.OK) (s mn mx ar rr x : F) (u f : String)
+    (hwf : (DInfo.scaled s mn mx ar rr u f).WF D) (hex : (DInfo.scaled s mn mx ar rr u f).Exportable)
+    (hx : isFinite x = true) (hc : addZero x = x) (hle : le mn x = true) :
+    instanceDatatype D (.scaled s mn mx ar rr u f) [(.max, .float x)] = .ok (.scaled s mn x ar rr u f) := by
+  have hcopy := copy_core D hD Frappy.Props.C03.constsOK2 _ hwf hex
+  have hset := cfg_limit_stored D hD .max x s mn mx ar rr u f hx hc
+  simp only at hset
+  simp only [instanceDatatype, hcopy, applyLimits, hset, limitsOrdered, hle, if_true]
+
+/-- **model_change_probe_ok_derived** (the monitor clause "a payload the described datainfo excludes is refused, nothing
+is written" holds of the model WITHOUT an oracle assumption).  In a node over the datatype model whose parameters all
+carry the operations of one well-formed tree with on-grid scaled limits, the exchange of ANY `change m:a` aimed at a
+described parameter satisfies `ProbeOK`, the client verdict being computed from the DESCRIBED datainfo
+(`get_datatype`, `import_value`, `validate` against the value held). -/
+theorem model_change_probe_ok_derived [DecidableEq (JVal F)] (pre : Predef) (D : Consts F) (hD : D.OK)
+    (env : Env (PVal F)) (n : Node (JVal F) (PVal F)) (hwf : Node.WF pre n) (hno : NoForeignReadOnly env n)
+    (hdt : ∀ mod ∈ n, ∀ p, Acc.param p ∈ mod.accs → ∃ ev t, p.dt = dtOpsOf D ev t ∧ t.WF D ∧ t.Exportable)
+    (m a : String) (j : JVal F) (allowed : Bool)
+    (hallowed : allowed = true → ∃ m' a' hw v w, changeVerdict pre env n (.full m a) j = .allow m' a' hw v w)
+    (ad : AccDesc (JVal F)) (hd : findDesc (describe pre n) m a = some ad) (hk : ad.kind = .parameter) :
+    ∃ mod p, lookupParam pre n m a = .ok (mod, p) ∧
+      ProbeOK (describe pre n)
+        ⟨.change, m, a, (handleChange pre env n (.full m a) j).reply, (handleChange pre env n (.full m a) j).calls, false,
+         allowed, false,
+         match clientAccept D ad.datainfo j (some p.entry.value) with
+         | .ok _ => true
+         | .error _ => false⟩ := by
+  obtain ⟨mod, p, hl, hall⟩ := described_datainfo_equiv_derived pre D hD n hwf m a ad hd hk
+  refine ⟨mod, p, hl, model_change_probe_ok pre env n hwf hno m a j allowed _ hallowed ?_⟩
+  intro hcl mod' p' hl'
+  rw [hl] at hl'; injection hl' with hl'; injection hl' with h1 h2; subst h1; subst h2
+  have hex := exported_of_lookupParam pre n m a mod p hl
+  obtain ⟨ev, t, hp, htw, hte⟩ := hdt mod hex.1 p hex.2.2.2.1
+  have heq := hall ev t hp htw hte j (some p.entry.value)
+  rintro ⟨v, hv⟩
+  rw [← heq] at hv
+  cases hca : clientAccept D ad.datainfo j (some p.entry.value) with
+  | ok r => rw [hca] at hcl; simp at hcl
+  | error e => rw [hca] at hv; simp [liftRes] at hv
+
+end Derived
+
+/-! non-vacuity of the derived-datainfo theorems: the exact carrier, `ScaledInteger(0.1, 0, 1)` whose `max` the
+configuration sets to 0.3 -/
+namespace Example4
+open Frappy Frappy.Datatypes FloatOps Frappy.Props.C04.Example
+
+def D4 : Consts Rat := ⟨0, 12/100000000, 1/10000000000⟩
+
+theorem D4_ok : D4.OK := by
+  refine ⟨?_, ?_, ?_, ?_, ?_, ?_, ?_, ?_⟩ <;> decide +kernel
+
+def cls4 : DInfo Rat := .scaled (1/10) 0 1 (1/10) (12/100000000) "" "%g"
+def t4 : DInfo Rat := .scaled (1/10) 0 (3/10) (1/10) (12/100000000) "" "%g"
+
+theorem cls4_wf : cls4.WF D4 := by
+  simp only [cls4, DInfo.WF, DType.WF, DInfo.strOK]; decide +kernel
+
+theorem t4_wf : t4.WF D4 := by
+  simp only [t4, DInfo.WF, DType.WF, DInfo.strOK]; decide +kernel
+
+theorem t4_exportable : t4.Exportable := by
+  refine ⟨?_, ?_⟩ <;> (unfold DInfo.Aligned; decide +kernel)
+
+theorem cls4_exportable : cls4.Exportable := by
+  refine ⟨?_, ?_⟩ <;> (unfold DInfo.Aligned; decide +kernel)
+
+theorem stored4 : setLimit D4 .max (.float (3/10)) cls4 = .ok t4 :=
+  cfg_limit_stored D4 D4_ok .max (3/10) (1/10) 0 1 (1/10) (12/100000000) "" "%g" (by decide +kernel) (by decide +kernel)
+
+/-- the hypotheses of `configured_scaled_described` hold; the model computes: instance datatype = class datatype with
+`max` = 0.3, described `max` = 3 -/
+example : instanceDatatype D4 cls4 [(.max, .float (3/10))] = .ok t4 ∧
+    (∃ fields, exportDatatype D4 t4 = .ok (.obj fields) ∧ PVal.dictGet fields "max" = some (.int 3)) := by
+  refine ⟨?_, ?_⟩
+  · have hc : copy D4 cls4 = .ok cls4 :=
+      Frappy.Lemmas.C03Datainfo.copy_core D4 D4_ok Frappy.Props.C03.constsOK2 cls4 cls4_wf cls4_exportable
+    have ho : limitsOrdered t4 = true := by decide +kernel
+    simp only [instanceDatatype, hc, applyLimits, stored4, ho, if_true]
+  obtain ⟨t', h1, _, _, kmax, fields, h2, h3, h4, _⟩ :=
+    configured_scaled_described D4 D4_ok (1/10) 0 1 (1/10) (12/100000000) (3/10) "" "%g" cls4_wf
+      (by decide +kernel) (by decide +kernel) (by decide +kernel) (by unfold DInfo.Aligned; decide +kernel)
+      (by unfold DInfo.Aligned; decide +kernel)
+  have ht : t' = t4 := by
+    have h := stored4
+    simp only [cls4] at h
+    rw [h] at h1; injection h1 with h1; exact h1.symm
+  subst ht
+  refine ⟨fields, h2, ?_⟩
+  have hk : kmax = 3 := by
+    have h5 : DType.ofGrid (1/10 : Rat) kmax = some (3/10) := h4
+    simp only [DType.ofGrid, FloatOps.ofInt, FloatOps.mul] at h5
+    injection h5 with h5
+    have h6 : (kmax : Rat) = 3 := by
+      have h7 : (kmax : Rat) * (1/10) * 10 = (3/10) * 10 := by rw [h5]
+      have e1 : (kmax : Rat) * (1/10) * 10 = (kmax : Rat) := by
+        rw [Rat.mul_assoc]; have : (1/10 : Rat) * 10 = 1 := by decide +kernel
+        rw [this, Rat.mul_one]
+      have e2 : (3/10 : Rat) * 10 = 3 := by decide +kernel
+      rw [e1, e2] at h7; exact h7
+    exact_mod_cast h6
+  rw [h3, hk]
+
+/-- what a datatype answer looks like from outside: the error class, or the float it returns -/
+def look : Res Rat → Option Err × Option Rat
+  | .ok (.float x) => (none, some x)
+  | .ok _ => (none, none)
+  | .error e => (some e, none)
+
+/-- `derived_datainfo_equiv` on that datatype: the payload 3 (0.3) is accepted by the rebuilt client and by the node,
+5 is refused by both -/
+example : ∃ di, exportDatatype D4 t4 = .ok di ∧
+    clientAccept D4 di (.int 3) none = acceptWire t4.erase (.int 3) none ∧
+    clientAccept D4 di (.int 5) none = acceptWire t4.erase (.int 5) none ∧
+    look (acceptWire t4.erase (.int 3) none) = (none, some (3/10)) ∧
+    look (acceptWire t4.erase (.int 5) none) = (some .range, none) := by
+  obtain ⟨di, h1, h2⟩ := derived_datainfo_equiv_partial D4 D4_ok t4 t4_wf t4_exportable
+  exact ⟨di, h1, h2 _ _, h2 _ _, by decide +kernel, by decide +kernel⟩
+
+
+/-- a scaled limit OFF the grid, as a configuration may set it (`cfg_limit_stored`: nothing moves it): `max = 0.34` at
+scale 0.1.  The description says `max = 3`; the node takes the payload 4 (0.4 lies within one scale of 0.34: it is
+"silently clamped" to the grid value 0.3 of the limit), the client rebuilt from the description (limit 0.3: 0.4 is a
+full scale away) refuses it. -/
+def t5 : DInfo Rat := .scaled (1/10) 0 (34/100) (1/10) (12/100000000) "" "%g"
+
+theorem t5_wf : t5.WF D4 := by
+  simp only [t5, DInfo.WF, DType.WF, DInfo.strOK]; decide +kernel
+
+def di5 : JVal Rat := .obj [("scale", .num (1/10)), ("type", .str "scaled"), ("min", .int 0), ("max", .int 3)]
+
+theorem export5 : exportDatatype D4 t5 = .ok di5 := by
+  have h1 : DType.gridIndex (1/10 : Rat) 0 = some 0 := by decide +kernel
+  have h2 : DType.gridIndex (1/10 : Rat) (34/100) = some 3 := by decide +kernel
+  have h3 : scaledAbsResField D4 (1/10 : Rat) (1/10) = [] := by decide +kernel
+  have h4 : (!feq (12/100000000 : Rat) D4.relRes) = false := by decide +kernel
+  simp [t5, di5, exportDatatype, h1, h2, h3, h4, optField]
+
+theorem offgrid5 : look (acceptWire t5.erase (.int 4) none) = (none, some (3/10)) ∧
+    look (clientAccept D4 di5 (.int 4) none) = (some .range, none) := by
+  refine ⟨by decide +kernel, by decide +kernel⟩
+
+/-- **derived_datainfo_equiv_fails**: the full statement does not hold (over the exact carrier: no rounding involved) -/
+theorem derived_datainfo_equiv_fails : ¬ derived_datainfo_equiv_statement Rat := by
+  intro h
+  obtain ⟨di, h1, h2⟩ := h D4 D4_ok t5 t5_wf
+  rw [export5] at h1; injection h1 with h1; subst h1
+  have := h2 (.int 4) none
+  have h3 := offgrid5
+  rw [this] at h3
+  have : (none, some (3/10 : Rat)) = ((some Err.range, none) : Option Err × Option Rat) := h3.1.symm.trans h3.2
+  cases this
+
+def p4 : Param (JVal Rat) (PVal Rat) :=
+  { attr := "p", exp := .auto, limitHead := none, isLimitsPair := false, readonly := false, constant := none,
+    dt := dtOpsOf D4 (fun _ => .null) t4, entry := ⟨.float 0, none⟩, checks := [], hasRead := false, hasWrite := false, props := [] }
+def m4 : Module (JVal Rat) (PVal Rat) := { name := "m", exported := true, accs := [.param p4], props := [] }
+def node4 : Node (JVal Rat) (PVal Rat) := [m4]
+
+theorem wf4 : Node.WF pre node4 := by
+  refine ⟨by unfold namesNodup; decide +kernel, ?_, ?_, ?_, ?_⟩
+  · intro x hx; simp only [node4, List.mem_singleton] at hx; subst hx; unfold Module.attrsNodup; decide +kernel
+  · intro x hx; simp only [node4, List.mem_singleton] at hx; subst hx; unfold Module.wiresNodup; decide +kernel
+  · intro x hx; simp only [node4, List.mem_singleton] at hx; subst hx
+    intro a ha k hk
+    simp only [m4, List.mem_singleton] at ha
+    subst ha; revert hk; revert k; decide +kernel
+  · intro x hx; simp only [node4, List.mem_singleton] at hx; subst hx
+    intro a ha p hp hc
+    simp only [m4, List.mem_singleton] at ha
+    subst ha; injection hp with hp; subst hp; simp [p4] at hc
+
+/-- `described_datainfo_equiv_derived` on a node whose parameter `m:_p` carries that datatype: the client built from
+the described datainfo and the node's own validation give the same answer to every payload -/
+example : ∃ ad, findDesc (describe pre node4) "m" "_p" = some ad ∧
+    ∀ j prev, liftRes (clientAccept D4 ad.datainfo j prev) = p4.dt.accept j prev := by
+  cases h : findDesc (describe pre node4) "m" "_p" with
+  | none =>
+    have : (findDesc (describe pre node4) "m" "_p").isSome = true := by decide +kernel
+    rw [h] at this; cases this
+  | some ad =>
+    have hk : ad.kind = .parameter := by
+      have : (findDesc (describe pre node4) "m" "_p").map (·.kind) = some .parameter := by decide +kernel
+      rw [h] at this; simpa using this
+    obtain ⟨mod, p, hl, hall⟩ := described_datainfo_equiv_derived pre D4 D4_ok node4 wf4 "m" "_p" ad h hk
+    have hp : p = p4 := by
+      have hex := exported_of_lookupParam pre node4 "m" "_p" mod p hl
+      have hm : mod = m4 := by simpa [node4] using hex.1
+      have := hex.2.2.2.1
+      rw [hm] at this
+      simp only [m4, List.mem_singleton] at this
+      injection this
+    subst hp
+    exact ⟨ad, rfl, hall _ t4 rfl t4_wf t4_exportable⟩
+
+end Example4
 
 end Frappy.Props.C06
